@@ -23,7 +23,7 @@ type TwinsCase struct {
 	N      int    `json:"n"`      // items per pipeline
 	Buf    int    `json:"buf"`    // buffer of the stage channels (0..2)
 	Fwd    string `json:"fwd"`    // how a stage hands an item on: lit | paren | member | item | named | send
-	Elem   string `json:"elem"`   // int | ptr (pointer items, every third one a nil pointer)
+	Elem   string `json:"elem"`   // int | ptr (pointer items, every third one a nil pointer) | level (a named int64 type defined by the host)
 	Rx     string `json:"rx"`     // forin | ok2
 	Procs  int    `json:"procs"`
 	Reps   int    `json:"reps"`
@@ -36,7 +36,7 @@ func genTwins(t *rapid.T) TwinsCase {
 		N:      rapid.SampledFrom([]int{0, 1, 2, 5, 20, 60, 150}).Draw(t, "n"),
 		Buf:    rapid.IntRange(0, 2).Draw(t, "buf"),
 		Fwd:    rapid.SampledFrom([]string{"lit", "lit", "paren", "member", "member", "item", "named", "send"}).Draw(t, "fwd"),
-		Elem:   rapid.SampledFrom([]string{"int", "int", "ptr"}).Draw(t, "elem"),
+		Elem:   rapid.SampledFrom([]string{"int", "int", "ptr", "level"}).Draw(t, "elem"),
 		Rx:     rapid.SampledFrom([]string{"forin", "forin", "ok2"}).Draw(t, "rx"),
 		Procs:  rapid.SampledFrom([]int{2, 4, 16}).Draw(t, "procs"),
 		Reps:   rapid.IntRange(1, 3).Draw(t, "reps"),
@@ -49,9 +49,16 @@ func twinsSource(c TwinsCase) string {
 	if c.Elem == "ptr" {
 		typ = "*int64"
 	}
+	if c.Elem == "level" {
+		// a named type over int64 defined by the host: plain int64 values are converted when sent
+		typ = "hlevel"
+	}
 	// what a stage does with one item v: add a to it (through the pointer for pointer items; a nil
 	// pointer is handed on as it is) and hand it to the next channel
 	step := "w = v + a"
+	if c.Elem == "level" {
+		step = "w = pval(v) + a"
+	}
 	if c.Elem == "ptr" {
 		// pval reads the number behind an item whether the loop variable holds the pointer or (as
 		// for-in does for non-nil pointer items, like over slices) what it points to
@@ -80,7 +87,9 @@ func twinsSource(c TwinsCase) string {
 	if c.Rx == "forin" {
 		b.WriteString("\t\tfor v in ci {\n\t\ttick()\n\t\t" + step + "\n\t\t" + fwd + "\n\t\t}\n")
 	} else {
-		b.WriteString("\t\tfor {\n\t\ttick()\n\t\tv, ok = <-ci\n\t\tif !ok {\n\t\t\tbreak\n\t\t}\n\t\t" + step + "\n\t\t" + fwd + "\n\t\t}\n")
+		// the flag exists before the loop: the receive statement inside the loop body assigns it, so
+		// after the loop (left through !ok) it is false
+		b.WriteString("\t\tok = true\n\t\tfor {\n\t\ttick()\n\t\tv, ok = <-ci\n\t\tif !ok {\n\t\t\tbreak\n\t\t}\n\t\t" + step + "\n\t\t" + fwd + "\n\t\t}\n\t\tif ok {\n\t\t\tthrow \"the ok flag of the two-value receive is still true after the channel was closed and drained\"\n\t\t}\n")
 	}
 	b.WriteString("\t} catch e {\n\t\tgerr(0, \"\" + e)\n\t}\n\tclose(co)\n}\n")
 	// the runner of one pipeline
@@ -105,6 +114,8 @@ func twinsSource(c TwinsCase) string {
 	fmt.Fprintf(&b, "\tfor v in c%d {\n\t\ttick()\n", c.Stages)
 	if c.Elem == "ptr" {
 		b.WriteString("\t\tif v == nil {\n\t\t\tl += [\"nil\"]\n\t\t} else {\n\t\t\tl += [pval(v)]\n\t\t}\n")
+	} else if c.Elem == "level" {
+		b.WriteString("\t\tl += [pval(v)]\n")
 	} else {
 		b.WriteString("\t\tl += [v]\n")
 	}
